@@ -2,3 +2,7 @@ import Nervus.Model.Bytes
 import Nervus.Model.OKey
 import Nervus.Spec.OrderedValue
 import Nervus.Props.C27
+import Nervus.Model.PropVal
+import Nervus.Model.WalRec
+import Nervus.Model.Crc32
+import Nervus.Props.C25
